@@ -14,14 +14,15 @@ ID = "C20"
 RULE = (
     "case = default TOML tree (tables nested up to 3 deep over a small key pool; scalar ints/floats/bools/strings with #, =, quotes, brackets, non-ASCII; "
     "one-line arrays) rendered by the harness's own writer with comment and blank lines, x a user tree derived from it (each key dropped/kept/changed incl. "
-    "scalar type changes, plus user-only keys and tables) x file exists | file absent. Both texts are first checked with tomllib against the generated trees. "
+    "scalar type changes, plus user-only keys and tables) x file exists | file absent; table sections may be written in any order (e.g. [server.tls], [ui], [server]) and leaf tables as one-line inline tables; the user may edit the file between two loads. Both texts are first checked with tomllib against the generated trees. "
     "Oracle: reference overlay on plain dicts (user wins at leaves, recurse on tables, keep both sides' private keys); file bytes unchanged when it existed; when absent: "
     "first load == defaults and creates a file, two further loads == defaults with file bytes unchanged, created file parses as TOML. "
     "Non-trivial = overlap at depth >= 2 with both a changed and an untouched sibling, or the absent-file path with a nested table."
 )
 ASSUMPTIONS = [
-    "no arrays of tables, inline tables, multi-line values or table<->scalar conflicts (outside the property's stated domain / one-line proviso)",
+    "no arrays of tables, multi-line values or table<->scalar conflicts (outside the property's stated domain / one-line proviso)",
     "tomllib (stdlib) is the second TOML reader validating the harness's writer",
+    "tomlkit's parser is trusted: documents that tomlkit itself refuses to parse (some valid out-of-order table headers) are set aside and counted",
     "the config directory is redirected with XDG_CONFIG_HOME to a per-process scratch directory",
 ]
 
@@ -93,6 +94,11 @@ def strategy(draw, tier="quick"):
         "exists": draw(st.sampled_from([True, True, False])),
         "comments": draw(st.lists(st.integers(0, 40), max_size=4)),
         "ucomments": draw(st.lists(st.integers(0, 40), max_size=3)),
+        "user2": draw(st.one_of(st.none(), _derive(d, 3))),  # the user edits the file between two loads
+        "order": draw(st.one_of(st.just([]), st.lists(st.integers(0, 5), min_size=1, max_size=6))),
+        "uorder": draw(st.one_of(st.just([]), st.lists(st.integers(0, 5), min_size=1, max_size=6))),
+        "inline": draw(st.sampled_from([0, 0, 1, 2, 3, 5, 255])),
+        "uinline": draw(st.sampled_from([0, 0, 1, 2, 3, 5, 255])),
     }
 
 
@@ -131,20 +137,39 @@ def _v(v):
     raise TypeError(v)
 
 
-def render(tree, comments=()):
-    lines = []
+def render(tree, comments=(), order=(), inline=0):
+    """`order`: ints permuting the [table] sections (any order of headers is valid TOML, e.g. [server.tls], [ui], [server]);
+    `inline`: bit mask - the i-th leaf table (no sub-tables) is written as an inline table `name = { k = v }` if bit i is set."""
+    sections = []  # (path, [scalar lines])
+    leaf_no = [0]
 
     def emit(t, path):
+        mine = []
+        sections.append((path, mine))
         for k, v in t.items():
             if not isinstance(v, dict):
-                lines.append(f"{k} = {_v(v)}")
+                mine.append(f"{k} = {_v(v)}")
         for k, v in t.items():
             if isinstance(v, dict):
-                lines.append("")
-                lines.append("[" + ".".join(path + [k]) + "]")
+                is_leaf = not any(isinstance(x, dict) for x in v.values())
+                if is_leaf:
+                    i = leaf_no[0]
+                    leaf_no[0] += 1
+                    if (inline >> i) & 1:
+                        mine.append(f"{k} = {{ " + ", ".join(f"{kk} = {_v(vv)}" for kk, vv in v.items()) + " }" if v else f"{k} = {{}}")
+                        continue
                 emit(v, path + [k])
 
     emit(tree, [])
+    root, rest = sections[0], sections[1:]
+    if order and len(rest) > 1:
+        keyed = sorted(range(len(rest)), key=lambda i: (order[i % len(order)], i))
+        rest = [rest[i] for i in keyed]
+    lines = list(root[1])
+    for path, mine in rest:
+        lines.append("")
+        lines.append("[" + ".".join(path) + "]")
+        lines.extend(mine)
     for i, c in enumerate(comments):
         pos = c % (len(lines) + 1)
         lines.insert(pos, ["# a comment", "", "# key = 1", "   ", "#"][(c + i) % 5])
@@ -191,15 +216,28 @@ def _typed(x):
 _n = 0
 
 
+def known_key(case, v):
+    return v.key
+
+
 def run_case(case):
     global _n
     from aw_core.config import load_config_toml
 
     d, u = case["default"], case["user"]
-    dtext = render(d, case["comments"])
-    utext = render(u, case["ucomments"])
+    dtext = render(d, case["comments"], case.get("order", ()), case.get("inline", 0))
+    utext = render(u, case["ucomments"], case.get("uorder", ()), case.get("uinline", 0))
     if _typed(tomllib.loads(dtext)) != _typed(d) or _typed(tomllib.loads(utext)) != _typed(u):
         raise RuntimeError("harness TOML writer disagrees with tomllib")
+    # tomlkit (the library under the loader) rejects some valid orderings of table headers that tomllib accepts,
+    # e.g. [s.s.c] [s.s] [s] [s.s.t]: that is tomlkit's parser, not the configuration loader -> such documents are set aside
+    import tomlkit
+
+    for text in (dtext, utext):
+        try:
+            tomlkit.parse(text)
+        except Exception:
+            return {"nontrivial": False, "classes": ["set_aside_tomlkit_rejects_valid_toml"], "evals": 0}
     _n += 1
     app = f"app{os.getpid()}x{_n}"
     cdir = os.path.join(os.environ["XDG_CONFIG_HOME"], "activitywatch", app)
@@ -218,6 +256,18 @@ def run_case(case):
                     raise Violation(f"load_config_toml (call {i + 1}) with default {d!r} and user file {u!r} gave {got!r}, expected overlay {exp!r}")
                 if hashlib.sha256(open(path, "rb").read()).hexdigest() != before:
                     raise Violation("load_config_toml altered the existing user file")
+            if case.get("user2") is not None:
+                u2 = case["user2"]
+                u2text = render(u2, case["ucomments"], (), 0)
+                if _typed(tomllib.loads(u2text)) != _typed(u2):
+                    raise RuntimeError("harness TOML writer disagrees with tomllib")
+                with open(path, "w") as f:
+                    f.write(u2text)
+                with sut("load_config_toml (after the user edited the file)"):
+                    got = _unwrap(load_config_toml(app, dtext))
+                exp = overlay(d, u2)
+                if _typed(got) != _typed(exp):
+                    raise Violation(f"after the user file changed from {u!r} to {u2!r}, load_config_toml with default {d!r} gave {got!r}, expected {exp!r}")
         else:
             with sut("load_config_toml (no file)"):
                 got = _unwrap(load_config_toml(app, dtext))
@@ -255,4 +305,10 @@ def run_case(case):
         classes.append("nested_default")
     if any(isinstance(v, dict) for v in u.values()):
         classes.append("nested_user")
+    if case.get("user2") is not None and case["exists"]:
+        classes.append("file_edited_between_loads")
+    if case.get("order") or case.get("uorder"):
+        classes.append("sections_out_of_order")
+    if case.get("inline") or case.get("uinline"):
+        classes.append("inline_tables")
     return {"nontrivial": nt, "classes": classes, "evals": 3}
